@@ -136,6 +136,26 @@ func suiteC10Instr(c *Ctx) {
 		if nSamples != 1 {
 			c.Cov.Fail(Failure{Kind: "violated", Clause: "stopwatch-elapsed", Signature: "c10-stopwatch-histogram", Line: fmt.Sprintf("%d samples for one histogram stopwatch", nSamples)})
 		}
+		// the wall clock is stepped between Start and Stop (the instants are what time.Now() returns then: monotonic
+		// readings d2 apart, wall readings off by the step): the elapsed time is d2
+		d2 := int64(r.Range(0, 5000)) * int64(time.Millisecond)
+		if ws, ok := wallStepInstants(r, d2); ok {
+			saved := now
+			now = ws[0]
+			w.log().Take()
+			sw3 := tm.Start()
+			now = ws[1]
+			sw3.Stop()
+			var rec3 []int64
+			for _, e := range w.log().Take() {
+				if e.Kind == "timer" {
+					rec3 = append(rec3, e.I)
+				}
+			}
+			now = saved
+			c.Cov.Hit("stopwatch.wall-clock-stepped")
+			c.Cov.Check(c.Drv, fmt.Sprintf("stopwatch 0 %d => %s", d2, i64List(rec3)), "c10-stopwatch-wall-clock-stepped-between-start-and-stop")
+		}
 		restore()
 		w.closer.Close()
 	}
